@@ -2,6 +2,7 @@ package checks
 
 import (
 	"fmt"
+	"strings"
 	"sync"
 	"time"
 
@@ -50,6 +51,9 @@ func checkRunTraces(c *core.Ctx, worker string, ps []*gen.Project, cfg string, s
 		}
 		if tr.Violated == "InRange" || tr.Violated == "InRangeN" {
 			c.Machineryf("run %s: a value did not fit the fixed-point projection at line %d: %v %v", tr.Case.P.Name, tr.Line, tr.Event["outofrange"], tr.Event["outofrangeN"])
+		} else if kf := knownFor(c, tr); kf != nil {
+			c.ReportKnown(kf, fmt.Sprintf("(%s in run %s, %s)", tr.Violated, tr.Case.P.Name, dayText(tr.Event["zeit"])))
+			c.CoverAdd("known_finding_cases", 1)
 		} else if tr.Violated != "" {
 			rd := saveProjectReplay(c, tr, cfg, nil)
 			what := fmt.Sprintf("%s violated in run %s at trace line %d (%s, date %s)", tr.Violated, tr.Case.P.Name, tr.Line, eventSummary(tr.Event), dayText(tr.Event["zeit"]))
@@ -97,4 +101,31 @@ func checkC01(c *core.Ctx) {
 	}
 	c.Distinct = c.TracesOK
 	c.Cover("rule", "one case per generated project run (soil, weather, schedule drawn from VERIF_SEED); non-trivial = trace consumed to the end with at least one simulated day")
+}
+
+// knownFor matches a trace violation against the listed known findings of the property (read-only file).
+// A finding matches by invariant name and a predicate on the generating description; anything else stays a violation.
+func knownFor(c *core.Ctx, tr *traceResult) *core.Finding {
+	if tr.Violated == "" {
+		return nil
+	}
+	hasArm := func(a string) bool {
+		for _, x := range tr.Case.P.Arms {
+			if x == a {
+				return true
+			}
+		}
+		return false
+	}
+	switch c.ID {
+	case "C04":
+		// only the call sites in Run() that drop the error of LoadYear()/WetterK(): the series ends before the run does,
+		// or a one-file-per-year input has a hole (WetterK reports it, Run() ignores it)
+		arms := strings.Join(tr.Case.P.Arms, " ")
+		viaRunGo := strings.Contains(arms, "seriesEndsEarly") || (strings.Contains(arms, " gap") && tr.Case.P.Weather.Layout == 0)
+		if (tr.Violated == "C04_NoSilentReuse" || tr.Violated == "C04_FailsWhenUncovered") && hasArm("expectFail") && viaRunGo {
+			return c.KnownFinding("H5-weather-load-errors-ignored")
+		}
+	}
+	return nil
 }
